@@ -604,9 +604,9 @@ End NI.
 Section Examples.
   Open Scope string_scope.
   Let sleaf (sens : bool) : leaf :=
-    {| l_kind := LStr None None false false; l_required := false; l_default := PNone; l_callable := false; l_sensitive := sens |}.
+    {| l_kind := LStr None None false false; l_required := false; l_default := PNone; l_callable := false; l_sensitive := sens; l_reject := None |}.
   Let ileaf (sens : bool) : leaf :=
-    {| l_kind := LInt None None; l_required := false; l_default := PInt 7; l_callable := false; l_sensitive := sens |}.
+    {| l_kind := LInt None None; l_required := false; l_default := PInt 7; l_callable := false; l_sensitive := sens; l_reject := None |}.
   Let item_fs : list (str * inode) := [(sa "pw", NLeaf (sleaf true)); (sa "n", NLeaf (ileaf false))].
   Let ex_fs : list (str * inode) :=
     [(sa "pw", NLeaf (sleaf true)); (sa "n", NLeaf (ileaf false)); (sa "pin", NLeaf (ileaf true));
